@@ -120,7 +120,22 @@ def check_basis(n, u, v, want_normal=None):
 def gen_direction(rng, ndim):
     if ndim < 3:
         return {"kind": "none"}
-    k = rng.choice(["letter", "letter", "triple", "vector", "vector", "vector-z0", "near-axis"])
+    k = rng.choice(["letter", "letter", "triple", "triple", "vector", "vector", "vector-z0", "near-axis", "basis"])
+    if k == "basis":
+        # an explicit orthonormal basis (n, u, v), right- or left-handed, given as a VectorBasis
+        import math
+
+        a, b, c = (rng.uniform(0, 2 * math.pi) for _ in range(3))
+        ca, sa, cb, sb, cc, sc = math.cos(a), math.sin(a), math.cos(b), math.sin(b), math.cos(c), math.sin(c)
+        R = [[cb * cc, sa * sb * cc - ca * sc, ca * sb * cc + sa * sc],
+             [cb * sc, sa * sb * sc + ca * cc, ca * sb * sc - sa * cc],
+             [-sb, sa * cb, ca * cb]]
+        cols = [[R[0][j], R[1][j], R[2][j]] for j in range(3)]
+        n_, u_, v_ = cols[2], cols[0], cols[1]  # right-handed: u x v = n
+        if rng.random() < 0.5:
+            v_ = [-q for q in v_]  # left-handed request
+        scale = [rng.choice([1.0, 2.5, 0.3]) for _ in range(3)]
+        return {"kind": "basis", "n": [q * scale[0] for q in n_], "u": [q * scale[1] for q in u_], "v": [q * scale[2] for q in v_]}
     if k == "letter":
         return {"kind": "str", "s": rng.choice(["x", "y", "z", "Z"])}
     if k == "triple":
@@ -143,6 +158,8 @@ def direction_arg(d):
         return "z"
     if d["kind"] == "str":
         return d["s"]
+    if d["kind"] == "basis":
+        return osyris.VectorBasis(n=osyris.Vector(*d["n"]), u=osyris.Vector(*d["u"]), v=osyris.Vector(*d["v"]))
     return osyris.Vector(*d["v"])
 
 
@@ -151,7 +168,26 @@ def requested_normal(d):
         return [0, 0, 1]
     if d["kind"] == "str":
         return {"x": [1, 0, 0], "y": [0, 1, 0], "z": [0, 0, 1]}[d["s"][0].lower()]
+    if d["kind"] == "basis":
+        return d["n"]
     return d["v"]
+
+
+def documented_basis(d):
+    """(n, u, v) that the documentation promises for an axis letter, an axis triple or an explicit basis; None for a bare normal."""
+    ax = {"x": np.array([1.0, 0.0, 0.0]), "y": np.array([0.0, 1.0, 0.0]), "z": np.array([0.0, 0.0, 1.0])}
+    if d["kind"] == "str":
+        t = d["s"].lower()
+        if len(t) == 1:
+            t = {"x": "xyz", "y": "yzx", "z": "zxy"}[t]
+        return [ax[t[0]], ax[t[1]], ax[t[2]]]
+    if d["kind"] == "basis":
+        out = []
+        for k in ("n", "u", "v"):
+            a = np.array(d[k], dtype=float)
+            out.append(a / np.linalg.norm(a))
+        return out
+    return None
 
 
 def gen_view(rng, m, cells):
